@@ -183,10 +183,16 @@ func (ip *Inode) Resize(atxn *alloctxn.AllocTxn, sz uint64) bool {
 	}
 	ip.Size = newSz
 	newSz = util.RoundUp(sz, disk.BlockSize)
-	if newSz < oldsz {
-		ip.ShrinkSize = oldsz
-	} else {
-		ip.ShrinkSize = newSz
+	// ShrinkSize only moves up here (Shrink moves it down): an earlier
+	// shrink may still be in progress (REMOVE and RENAME do not wait for
+	// it), and lowering the mark would leave the blocks between the new and
+	// the old mark attached to the inode for ever.
+	var mark = oldsz
+	if newSz > mark {
+		mark = newSz
+	}
+	if ip.ShrinkSize < mark {
+		ip.ShrinkSize = mark
 	}
 	ip.WriteInode(atxn)
 	if newSz < oldsz {
